@@ -1,5 +1,10 @@
 (* C18 -- property theorems only.  Statements are about Model/Dtype.v: the NEP-50 promotion table (re-measured from NumPy
-   on every run), the dtype language, and the per-entry-point skeletons. *)
+   on every run), the dtype language, and the per-entry-point skeletons.
+   Standing against the current code: C18_mask_multiplier_int_mask_refuted / _f64_mask_refuted (cp_to_tensor / khatri_rao /
+   cp_lstsq_grad use the mask as a plain multiplier; exact characterisation C18_mask_multiplier_is_promotion, restricted statement
+   C18_mask_multiplier_partial, after the candidate repair C18_mask_multiplier_after_cast_any_mask).  The *_before_* refutations
+   are about code that has since been repaired.  Programs extracted from the Python source: C18_prog2_precision_preserved
+   (precision class) and C18_all_exact2_sound (exactly the data's dtype: complex stays complex). *)
 From Coq Require Import List Bool Arith String.
 From TLV Require Import Model.Dtype Proofs.DtypeProofs.
 Import ListNotations.
@@ -196,6 +201,21 @@ Example C18_mask_multiplier_nonvacuous :
   out_dtypes (mkenv F32 I64) (mask_mul_prog true true true) 4 = [("factors", F32); ("weights", F32); ("out1", F32)] /\
   out_dtypes (mkenv F32 I64) (mask_mul_prog false true true) 4 = [("factors", F64); ("weights", F64); ("out1", F64)].
 Proof. repeat split; try (vm_compute; reflexivity); simpl; tauto. Qed.
+
+(* tensor_ring_als_sampled (transcribed): the documented float64 leverage-score distributions (and the float64 scalar of the uniform-sampling
+   branch) meet the data only through IN-PLACE updates of the rescaling vector, so the cores keep exactly the data's dtype, in all four
+   contexts, both sampling modes, any number of sweeps ... *)
+Theorem C18_tr_als_sampled_keeps_context : forall uniform t m n s e, In t ctxs ->
+  In (s, e) (p_outs (skeleton (tr_sampled_cfg uniform))) ->
+  eval (mkenv t m) (run (mkenv t m) (skeleton (tr_sampled_cfg uniform)) n) e = t.
+Proof. exact tr_als_sampled_inplace. Qed.
+Print Assumptions C18_tr_als_sampled_keeps_context.
+(* ... and the in-place form is what does it (counterfactual, NOT the code): the same statements written as rebindings return float64 cores
+   for float32 data after every positive number of sweeps *)
+Theorem C18_tr_als_sampled_rebinding_would_widen : forall uniform n, 0 < n ->
+  out_of_prog (mkenv F32 F32) (tr_als_sampled_prog_gen false (tr_sampled_cfg uniform)) n "*" = Some F64.
+Proof. exact tr_als_sampled_rebinding_widens. Qed.
+Print Assumptions C18_tr_als_sampled_rebinding_would_widen.
 
 (* robust_pca casts the mask into the data's context: clean for every mask dtype (in both variants) *)
 Theorem C18_robust_pca_any_mask : forall mc t m n s e, In t ctxs -> In (s, e) (p_outs (skeleton_v mc (with_mask (cfg0 FRobustPca)))) ->
